@@ -1,12 +1,12 @@
 (* Tactic used by the REGENERATED obligations (harness/src2coq.py, scalar front end): the term translated from the
-   current source must be equal, as a real-valued function, to the hand-written model.  Conversion first; otherwise
-   structural descent (under map via map_ext), case analysis on the comparisons, and ring / field / lra at the leaves. *)
+   current source must be equal, as a real-valued function, to the hand-written model.
+   Deterministic (no backtracking between strategies, so an unprovable obligation fails fast): conversion;
+   otherwise case analysis on every comparison that occurs outside a binder, then at each node
+   reflexivity / ring / lra, else one step of congruence (under `map` via map_ext) and recursion. *)
 From Coq Require Import Reals List Lra.
 From Persim Require Import Model.KernelM Model.ImageM.
 Import ListNotations.
 Open Scope R_scope.
-
-Ltac regen_leaf := first [ reflexivity | ring | lra ].
 
 Ltac destruct_decision :=
   match goal with
@@ -14,23 +14,36 @@ Ltac destruct_decision :=
       match type of c with sumbool _ _ => destruct c end
   end.
 
-Ltac regen_descend n :=
-  match n with
-  | O => regen_leaf
-  | S ?k =>
-    first
-      [ reflexivity
-      | match goal with
-        | |- (if ?c then _ else _) = (if ?c then _ else _) => destruct c; regen_descend k
-        | |- map _ ?l = map _ ?l => apply map_ext; intros; cbv beta zeta; regen_descend k
-        end
-      | regen_leaf
-      | (progress f_equal; regen_descend k)
-      | (destruct_decision; regen_descend k) ]
+(* two comparisons whose operands are equal only up to ring normalisation were split into contradictory cases *)
+Ltac regen_absurd :=
+  match goal with
+  | H : ?a < ?b, N : ~ (?a' < ?b') |- _ =>
+      exfalso; apply N; replace a' with a by ring; replace b' with b by ring; exact H
+  | H : ?a <= ?b, N : ~ (?a' <= ?b') |- _ =>
+      exfalso; apply N; replace a' with a by ring; replace b' with b by ring; exact H
+  | H : ?a = ?b, N : ?a' <> ?b' |- _ =>
+      exfalso; apply N; replace a' with a by ring; replace b' with b by ring; exact H
   end.
+
+Ltac regen_node n :=
+  repeat destruct_decision;
+  first
+    [ reflexivity
+    | ring
+    | lra
+    | regen_absurd
+    | match n with
+      | O => fail 1 "regen: depth exhausted"
+      | S ?k =>
+        lazymatch goal with
+        | |- map _ ?l = map _ ?l => apply map_ext; intros; cbv beta zeta; regen_node k
+        | |- ?f ?a1 ?a2 = ?f ?b1 ?b2 => apply f_equal2; regen_node k
+        | |- ?f ?a = ?f ?b => apply f_equal; regen_node k
+        end
+      end ].
 
 Create HintDb regen.
 #[global] Hint Unfold bvn_cdf bvn_cdf_gen bvn_std bvn_mid bvn_mid_term bvn_high bvn_high_core bvn_high_term
   linear_ramp uniform_cdf sbvn_cdf : regen.
 
-Ltac regen_solve := intros; first [ reflexivity | (autounfold with regen; cbv beta zeta; regen_descend 24%nat) ].
+Ltac regen_solve := intros; first [ reflexivity | (autounfold with regen; cbv beta zeta; timeout 300 (regen_node 40%nat)) ].
